@@ -148,7 +148,7 @@ func init() {
 				inc1 := RunInc(&w1, c.Tape, nil, 0, opts)
 				c.Absorb(inc1)
 				if v := flowOracle(inc1, Eval(&w1)); v.Status != "ok" {
-					return v
+					return foreign(v)
 				}
 				opts.Strategy = strategyOf(c.Tape)
 				inc2 := RunInc(w, c.Tape, inc1.Sim.FS.Root, inc1.Sim.FS.NextIno, opts)
@@ -157,14 +157,14 @@ func init() {
 					return v
 				}
 				if !completedOK(inc2) {
-					return Viol("resume-no-completion", "", "Run after RunTo does not complete: %s", endDesc(inc2))
+					return Skipped(Viol("resume-no-completion", "", "Run after RunTo does not complete: %s", endDesc(inc2)))
 				}
 				final = inc2.Sim.FS.Root
 			} else {
 				inc := RunInc(w, c.Tape, nil, 0, opts)
 				c.Absorb(inc)
 				if v := flowOracle(inc, ex); v.Status != "ok" {
-					return v
+					return foreign(v)
 				}
 				final = inc.Sim.FS.Root
 			}
